@@ -62,6 +62,12 @@ var c08Progs = []string{
 	`k+3|numbers(n).map(i->numbers(n).map(j->cnt(j))).multiUse({a:l->l.first().present(x->x>=k),b:l->l.top(1).size()}).a`,
 	`3|try numbers(6).map(i->numbers(20).map(j->fail(cnt(j)))).multiUse({a:l->l.first().first(),b:l->l.top(2).size()}).a catch e->e`,
 	`2|numbers(n).map(i->numbers(n).map(j->cnt(j))).skip(1).first().first()`,
+	// cross: the second operand stays lazy, too
+	`2|numbers(n).cross(numbers(n).map(y->cnt(y)),(p,q)->p+q).first()`,
+	`k+2|numbers(n).map(x->cnt(x)).cross([1,2],(p,q)->p).present(x->x>=k)`,
+	`0|let l=numbers(n).cross(numbers(n).map(y->cnt(y)),(p,q)->p+q); 7`,
+	`0|[].cross(numbers(n).map(y->cnt(y)),(p,q)->p).size()`,
+	`2|numbers(n).cross(numbers(n).map(y->fail(cnt(y))),(p,q)->p+q).first()`,
 	// in-memory sources
 	`1|[0,1,2,3,4,5,6,7].map(x->cnt(x)).first()`,
 	`k+2|[0,1,2,3,4,5,6,7].map(x->cnt(x)).present(x->x>=k)`,
